@@ -95,6 +95,8 @@ pub fn profile(name: &str) -> Profile {
         "clone" => Profile { name: "clone", w_clone: 16, w_capacity: 6, events: (20, 120), ..base },
         // C15
         "retain" => Profile { name: "retain", w_retain: 16, w_insert: 30, universe: (3, 24), fill: (3, 30), ..base },
+        // C07 at scale: caches of thousands of entries
+        "big" => Profile { name: "big", w_capacity: 14, w_insert: 34, w_remove: 12, w_iterate: 1, w_clone: 1, w_retain: 0, w_clear: 0, w_set_max: 1, w_debug: 0, universe: (3000, 12000), fill: (1500, 9000), events: (8000, 30000), ..base },
         // C20
         "hash" => Profile { name: "hash", w_capacity: 8, w_set_max: 6, w_retain: 4, universe: (4, 64), fill: (4, 80), ..base },
         // extreme sizes only (C01/C02)
@@ -130,7 +132,9 @@ pub fn make_cfg(rng: &mut Rng, prof: &Profile, base: usize) -> HistCfg {
         }
     };
     let cap0 = match rng.below(7) { 0 => None, 1 => Some(0), 2 => Some(1), 3 => Some(3), 4 => Some(7), 5 => Some(28), _ => Some(rng.usize_below(universe as usize * 2 + 2)) };
-    let events = rng.range(prof.events.0, prof.events.1);
+    let mut events = rng.range(prof.events.0, prof.events.1);
+    // interpreters run four orders of magnitude slower: many short histories
+    let (universe, max) = if cfg!(miri) { events = events.min(50); (universe.min(12), if !extreme && max > typical * 12 && max != usize::MAX { typical * rng.range(2, 10) } else { max }) } else { (universe, max) };
     HistCfg { hk, cap0, max, universe, events, extreme }
 }
 
@@ -213,8 +217,8 @@ impl Gen {
         let base = self.base;
         // filling phase: bring the population up to the history's target with fresh small entries
         if pre.len < self.target_len && (pre.len as u32) < universe && self.rng.chance(3, 5) {
-            let start = self.rng.below(universe as u64) as u32;
-            let fresh = (0..universe).map(|i| (start + i) % universe).find(|i| pre.find(*i).is_none()).unwrap_or(id);
+            let mut fresh = id;
+            for _ in 0..8 { let c = self.rng.below(universe as u64) as u32; if pre.find(c).is_none() { fresh = c; break; } }
             let s = if cfg.extreme { self.extreme_size(pre) } else { base + match self.rng.below(3) { 0 => 0, 1 => self.rng.usize_below(16), _ => self.rng.usize_below(150) } };
             let (kh, vh) = self.split(s);
             return if self.rng.chance(1, 6) { Op::TryInsert { id: fresh, kh, vh } } else { Op::Insert { id: fresh, kh, vh } };
